@@ -641,6 +641,80 @@ func runC10(c *Ctx) {
 		c.Check(okErr, "C10.4", FuncName(fn), "exceed-edge-error", iff.Pos(),
 			"the exceeding edge constructs the size-limit error", "a limit check's exceeding edge does not construct the size-limit (resource_exhausted) error")
 	}
+
+	// ---------------------------------------------------------------- C10.5
+	// The resource_exhausted error must reach the client: wherever a limit error is constructed at
+	// request time it is handed to a reporter, or returned to the caller (whose handling C09.4
+	// checks).  Parking it in an adapter's error cell alone makes the backend's write fail but
+	// tells the client nothing (defect D18: a declared Content-Length above the limit produced an
+	// empty successful response).
+	c.Rule("C10.5", "a constructed limit error is reported to the client or returned, never only stored", 5)
+	isLimitCtor := func(cal *ssa.Function) bool {
+		return cal != nil && p.inScope(cal) && cal.Signature.Results().Len() == 1 && isErrorType(cal.Signature.Results().At(0).Type()) && buildsRex(cal, 0)
+	}
+	reporters := map[*ssa.Function]bool{}
+	for _, n := range []string{"(*responseWriter).reportError", "(*operation).reportError", "(*responseWriter).reportEnd"} {
+		if f := p.Func(n); f != nil {
+			reporters[f] = true
+		}
+	}
+	reach = p.RequestTimeReach()
+	for _, fn := range p.Funcs {
+		if !reach[fn] || !p.inScope(fn) || isLimitCtor(fn) {
+			continue
+		}
+		for _, call := range Calls(fn) {
+			cv, ok := call.(*ssa.Call)
+			if !ok {
+				continue
+			}
+			// a constructor: a static callee that always returns a (non-nil) resource_exhausted error
+			if sc := call.Common().StaticCallee(); sc == nil || !isLimitCtor(sc) || !NeverNilError(cv, 0) {
+				continue
+			}
+			c.CountSite()
+			reported, returned := false, false
+			seenV := map[ssa.Value]bool{}
+			var follow func(v ssa.Value, depth int)
+			follow = func(v ssa.Value, depth int) {
+				if seenV[v] || depth > 4 {
+					return
+				}
+				seenV[v] = true
+				for _, ref := range *v.Referrers() {
+					switch r := ref.(type) {
+					case *ssa.Return:
+						returned = true
+					case ssa.CallInstruction:
+						for _, cal := range p.CalleesAt(r) {
+							if reporters[cal] {
+								reported = true
+							}
+						}
+					case *ssa.Phi:
+						follow(r, depth+1)
+					case *ssa.MakeInterface:
+						follow(r, depth+1)
+					case *ssa.ChangeInterface:
+						follow(r, depth+1)
+					case *ssa.Store:
+						// a named result / local spilled to memory: follow its loads
+						if al, isAl := r.Addr.(*ssa.Alloc); isAl {
+							for _, ar := range *al.Referrers() {
+								if ld, isLd := ar.(*ssa.UnOp); isLd && ld.Op == token.MUL {
+									follow(ld, depth+1)
+								}
+							}
+						}
+					}
+				}
+			}
+			follow(cv, 0)
+			c.Check(reported || returned, "C10.5", FuncName(fn), "limit-error-reaches-client", call.Pos(),
+				"the limit error is passed to a reporter or returned to the caller",
+				"a resource_exhausted error is constructed but neither reported nor returned (only stored): the client is not told that the message exceeded the limit")
+		}
+	}
 }
 
 // counterBounded: every store to the counter field (outside Close methods) is a
